@@ -57,13 +57,8 @@ def zeroHash : ByteArray := toBA (List.replicate 32 0)
 def txid (t : Tx) : ByteArray := BV.Sha256.hash2 (toBA (t.serialize false))
 def wtxid (t : Tx) : ByteArray := BV.Sha256.hash2 (toBA (t.serialize true))
 
-/-- the leaves both Go constructions feed to the tree: txids, or wtxids with leaf 0 zeroed -/
-def leaves (w : Bool) (txs : List Tx) : List ByteArray :=
-  if w then
-    match txs with
-    | [] => []
-    | _ :: rest => zeroHash :: rest.map wtxid
-  else txs.map txid
+/-- the leaves both Go constructions feed to the tree -/
+def leaves (w : Bool) (txs : List Tx) : List ByteArray := leafHashes txid wtxid zeroHash w txs
 
 def hexBA (b : ByteArray) : String := listToHex b.toList
 
